@@ -367,3 +367,44 @@ fix_bufview_good (FILE *fp)
   (*__gmp_free_func) (str, alloc_size);
   return v;
 }
+
+/* a helper that prints a block and releases it on every path */
+static int
+fix_cs_put_and_free (FILE *fp, char *s, size_t n)
+{
+  int  r = (fwrite (s, 1, n, fp) == n);
+  (*__gmp_free_func) (s, n);
+  return r;
+}
+
+/* a helper that releases it only sometimes */
+static int
+fix_cs_put_maybe_free (FILE *fp, char *s, size_t n, int done)
+{
+  int  r = (fwrite (s, 1, n, fp) == n);
+  if (done)
+    (*__gmp_free_func) (s, n);
+  return r;
+}
+
+/* negative: ownership goes to the helper */
+int
+fix_consume_good (FILE *fp, size_t n)
+{
+  char *s = (char *) (*__gmp_allocate_func) (n);
+  int   r;
+  memset (s, 'x', n);
+  r = fix_cs_put_and_free (fp, s, n);
+  return r;
+}
+
+/* positive: the helper does not always free - the caller still owns the block at its exit */
+int
+fix_consume_bad (FILE *fp, size_t n, int done)
+{
+  char *s = (char *) (*__gmp_allocate_func) (n);
+  int   r;
+  memset (s, 'x', n);
+  r = fix_cs_put_maybe_free (fp, s, n, done);
+  return r;
+}
